@@ -12,6 +12,7 @@ package main
 
 import (
 	"fmt"
+	"os"
 	"strings"
 
 	"github.com/itchyny/gojq"
@@ -156,6 +157,9 @@ func main() {
 			st.Distribution["skipped:parse/compile error"]++
 			continue
 		}
+		if os.Getenv("VERIF_TRACE") != "" {
+			fmt.Fprintf(os.Stderr, "TRACE %s <- %s\n", c.src, common.Canon(c.input))
+		}
 		o := common.RunCode(code, common.DeepCopy(c.input), budget, maxOuts)
 		if o.Panic != "" {
 			ctx.Violate("run-panic:"+c.src+":"+common.Canon(c.input), "Run panicked: "+o.Panic, map[string]any{"query": c.src, "input": common.Canon(c.input), "panic": o.Panic})
@@ -218,6 +222,9 @@ var probes = []string{
 	// ?//
 	"[[1,2] as [$a,$b] ?// $a | [$a,$b]]", "[{a:1} as [$a] ?// {a:$a} | $a]", "[1 as [$a] ?// $a | $a]", "[label $out | ([1] as [$a] ?// $a | $a, break $out)]", "[[[1]] as [[$a]] ?// [$a] | $a]",
 	"[.[]? as [$a] ?// $a | $a]", "[[1] as [$a] ?// $a | if ($a|type) == \"number\" then error(\"n\") else $a end]", "[(1,[2]) as [$a] ?// $a | $a]", "[2 as [$a] ?// {a:$a} ?// $a | $a]",
+	". as {$a: [$b]} ?// $c | [$a, $b, $c]", ". as {$a} ?// [$a] | $a", "[.[]? as {$a: [$b]} ?// [$a, $b] ?// $b | [$a, $b]]", ". as {a: {$b}} ?// {$b} | $b", ". as [$a, [$b]] ?// {$b} ?// $a | [$a, $b]",
+	"{a: 5} as {$a: [$b]} ?// $c | [$a, $b, $c]", "{a: [1]} as {$a: [$b]} ?// $c | [$a, $b, $c]", "[{a: 5}, {a: [7]}][] as {$a: [$b]} ?// {$a} | [$a, $b]", ". as {(\"a\",\"b\"): $x} | $x", ". as {\"a\": $x, $b} ?// $x | [$x, $b]",
+	"{a: 1} as {$a} ?// $z | if $a == 1 then error(\"first\") else [$a, $z] end", "[1, {a: 2}][] as {$a} ?// $a | $a", ". as {$a: {$b: [$c]}} ?// $c | [$a, $b, $c]",
 	// reduce / foreach / label
 	"reduce (1,2,3) as $x (0; . + $x)", "reduce empty as $x (0; . + 1)", "reduce (1,2) as $x (10; empty)", "reduce (1,2) as $x (0; (., 5) + $x)", "[foreach (1,2,3) as $x (0; . + $x)]", "[foreach (1,2,3) as $x (0; . + $x; [$x, .])]",
 	"[foreach (1,2) as $x (0; (.+1, .+10))]", "[foreach (1,2) as $x ((0,100); . + $x)]", "reduce .[]? as [$a,$b] (0; . + $a)", "[foreach .[]? as {a:$a} (0; . + 1; $a)]", "reduce (1,2) as $x ((0,100); . + $x)",
